@@ -307,6 +307,22 @@ def run_shard(modname, relname, tier, shard, nshards, n, seed, progress_file=Non
             if len(rec.harness_examples) < 2:
                 rec.harness_examples.append(dict(error='%s: %s' % (type(e).__name__, str(e)[:200]), where=where, case=_trim(case, 800)))
 
+    covdir = os.environ.get('DADI_VERIF_LINECOV')      # exploration aid (tools/covreport.py): which dadi lines the checks execute
+    covhit = {}
+    if covdir:
+        def _tracer(frame, event, arg):
+            fn = frame.f_code.co_filename
+            if '/dadi/' not in fn or '/verif/' in fn:
+                return None
+            hs = covhit.setdefault(fn, set())
+
+            def _local(frame, event, arg):
+                if event == 'line':
+                    hs.add(frame.f_lineno)
+                return _local
+            hs.add(frame.f_lineno)
+            return _local
+        sys.settrace(_tracer)
     try:
         if rel.enum is not None:
             for case in rel.enum(tier, shard, nshards, sseed):
@@ -332,6 +348,11 @@ def run_shard(modname, relname, tier, shard, nshards, n, seed, progress_file=Non
         error = '%s: %s\n%s' % (type(e).__name__, e, traceback.format_exc()[-3000:])
         if last.get('case') is not None:
             error += '\nlast case: %s' % json.dumps(last['case'], default=str)[:2000]
+    if covdir:
+        sys.settrace(None)
+        os.makedirs(covdir, exist_ok=True)
+        with open(os.path.join(covdir, '%s-%s-%d.json' % (reg.prop, relname, shard)), 'w') as f:
+            json.dump({k: sorted(v) for k, v in covhit.items()}, f)
     return dict(rel=relname, shard=shard, rec=rec.dump(), failure=failure, error=error,
                 wall=time.time() - t0)
 
